@@ -34,6 +34,11 @@ def specials():
                 ("dict", (("a", True, a),), False)]
     out += [("list", None, ()), ("dict", (), False), ("dict", (), True), ("any", (ANY, INT)),
             ("any", (INT, ANY))]
+    # pinned floats that validation cannot tell apart pairwise (math.isclose) but that are
+    # different declarations: a chain a ~ b ~ c with a !~ c
+    for x in (1.0, 1.0000000008, 1.0000000016):
+        f = S("float", call(x))
+        out += [f, ("list", ("elems", (f,)), ()), ("dict", (("a", False, f),), False)]
     # a value that is not equal to itself: a schema pinned to it must still equal itself
     nan = S("float", call(float("nan")))
     out += [nan, ("list", ("elems", (nan,)), ()), ("dict", (("a", False, nan),), False),
